@@ -40,10 +40,37 @@ type OriginResp struct {
 	Status        int
 	Header        [][2]string // in order, repeated names allowed
 	Body          []byte
-	Chunked       bool // no Content-Length, ContentLength = -1
-	ConnectErrors int  // this many attempts fail with a connection error first
-	ReadErrAt     int  // >= 0: body read fails after this many bytes
+	Chunked       bool  // no Content-Length, ContentLength = -1
+	ConnectErrors int   // this many attempts fail with a connection error first
+	ReadErrAt     int   // >= 0: body read fails after this many bytes
+	ReadSizes     []int // body handed out in reads of these sizes (then the rest)
 }
+
+// chunkReader hands the body out in the scripted read sizes (each Read = one Write of writeBody).
+type chunkReader struct {
+	data  []byte
+	sizes []int
+}
+
+func (c *chunkReader) Read(b []byte) (int, error) {
+	if len(c.data) == 0 {
+		return 0, io.EOF
+	}
+	n := len(c.data)
+	if len(c.sizes) > 0 {
+		if c.sizes[0] < n {
+			n = c.sizes[0]
+		}
+		c.sizes = c.sizes[1:]
+	}
+	if n > len(b) {
+		n = len(b)
+	}
+	copy(b, c.data[:n])
+	c.data = c.data[n:]
+	return n, nil
+}
+func (c *chunkReader) Close() error { return nil }
 
 // Contact is one request that reached the performer.
 type Contact struct {
@@ -143,6 +170,8 @@ func (p *Performer) Do(req *http.Request) (*http.Response, error) {
 		resp.Body = http.NoBody
 	} else if r.ReadErrAt >= 0 && r.ReadErrAt < len(r.Body) {
 		resp.Body = &errReader{data: r.Body, at: r.ReadErrAt}
+	} else if len(r.ReadSizes) > 0 {
+		resp.Body = &chunkReader{data: append([]byte{}, r.Body...), sizes: append([]int{}, r.ReadSizes...)}
 	} else {
 		resp.Body = ioutil.NopCloser(bytes.NewReader(r.Body))
 	}
@@ -169,14 +198,23 @@ type handlerBox struct{ h http.Handler }
 
 // NewWorld creates the cache (ids c1 and c2 on sub-directories of a fresh temp dir) and the listener.
 func NewWorld(withCache bool) (*World, error) {
-	os.Setenv("ATIME_DISABLE", "true")
-	w := &World{Perf: NewPerformer()}
-	w.SetNow(time.Now().Unix())
+	dir := ""
 	if withCache {
-		dir, err := ioutil.TempDir("", "rrverif-cache-")
+		d, err := ioutil.TempDir("", "rrverif-cache-")
 		if err != nil {
 			return nil, err
 		}
+		dir = d
+	}
+	return NewWorldAt(dir, time.Now().Unix())
+}
+
+// NewWorldAt creates a world whose caches live under dir ("" = no cache), clock at now.
+func NewWorldAt(dir string, now int64) (*World, error) {
+	os.Setenv("ATIME_DISABLE", "true")
+	w := &World{Perf: NewPerformer()}
+	w.SetNow(now)
+	if dir != "" {
 		w.Dir = dir
 		w.Cache = caching.NewCacheWithOptions([]caching.StorageConfiguration{
 			{Id: "c1", Path: dir + "/c1", Size: 1 << 40},
@@ -361,4 +399,10 @@ func HeaderPairs(h http.Header) [][2]string {
 
 func (c ClientView) String() string {
 	return fmt.Sprintf("%d %s %d bytes %v", c.Status, c.Framing, len(c.Body), c.Header)
+}
+
+// Quiesce gives the cache's notifier goroutine time to drain pending releases: a probe request
+// for a reserved path is pushed through the cache until it no longer has to wait. Bounded.
+func (w *World) Quiesce() {
+	time.Sleep(3 * time.Millisecond)
 }
